@@ -174,6 +174,36 @@ const SPIN_POLLS: u64 = 1024;
 /// outstanding: the simulation thread waits (real time, bounded) until the
 /// blocking pool is idle again. What the blocking work produced is then
 /// complete before anybody looks at it.
+thread_local! {
+    static BLOCKING_TIDS: RefCell<Option<std::sync::Arc<std::sync::Mutex<Vec<i64>>>>> = const { RefCell::new(None) };
+}
+
+/// Is every thread of this run's blocking pool asleep (parked: idle, or
+/// waiting for room in a bounded channel that only a task on the simulation
+/// thread can make)? Read from /proc/self/task/<tid>/stat.
+fn blocking_threads_all_asleep() -> bool {
+    let tids: Vec<i64> = match BLOCKING_TIDS.with(|c| c.borrow().clone()) {
+        Some(t) => t.lock().unwrap().clone(),
+        None => return false,
+    };
+    let me = unsafe { libc::syscall(libc::SYS_gettid) } as i64;
+    for tid in tids {
+        if tid == me {
+            continue;
+        }
+        let stat = match std::fs::read_to_string(format!("/proc/self/task/{}/stat", tid)) {
+            Ok(s) => s,
+            Err(_) => continue, // the thread is gone
+        };
+        // "<pid> (<comm>) <state> ..."
+        let state = stat.rsplit(')').next().and_then(|r| r.trim_start().chars().next()).unwrap_or('R');
+        if state != 'S' {
+            return false;
+        }
+    }
+    true
+}
+
 fn wait_for_blocking_work() {
     let h = match tokio::runtime::Handle::try_current() {
         Ok(h) => h,
@@ -185,8 +215,23 @@ fn wait_for_blocking_work() {
         return;
     }
     let start = super::interpose::real_now_ns();
+    let mut asleep = 0u32;
     while busy(&m) {
         std::thread::yield_now();
+        // Blocking work that sleeps is waiting for the simulation thread (a
+        // zone walk whose bounded channel is full: somebody has to take the
+        // items out). Seen asleep a few times in a row, it is let be.
+        // (Work still in the pool's queue has not even begun: its thread is
+        // asleep because it has not been woken up yet.)
+        if m.blocking_queue_depth() == 0 && blocking_threads_all_asleep() {
+            asleep += 1;
+            if asleep >= 3 {
+                sim::stat("probe.blocking_work_parked_waiting_for_the_simulation");
+                break;
+            }
+        } else {
+            asleep = 0;
+        }
         if super::interpose::real_now_ns() - start > 5_000_000_000 {
             // (A walk blocked on its bounded channel would wait for us.)
             sim::stat("probe.blocking_work_not_awaited");
@@ -351,7 +396,15 @@ fn run_on_this_thread(scn: Arc<dyn Scenario>, tier: Tier, env_seed: u64, tape: T
     let max_vtime = scn.max_vtime();
     let property = scn.property();
     let res = std::panic::catch_unwind(std::panic::AssertUnwindSafe(|| {
+        // The threads of this runtime's blocking pool (their kernel ids), so
+        // that the barrier below can see whether one of them is parked.
+        let pool_tids: std::sync::Arc<std::sync::Mutex<Vec<i64>>> = std::sync::Arc::new(std::sync::Mutex::new(Vec::new()));
+        BLOCKING_TIDS.with(|c| *c.borrow_mut() = Some(pool_tids.clone()));
         let rt = tokio::runtime::Builder::new_current_thread()
+            .on_thread_start(move || {
+                let tid = unsafe { libc::syscall(libc::SYS_gettid) } as i64;
+                pool_tids.lock().unwrap().push(tid);
+            })
             .enable_time()
             .start_paused(true)
             .rng_seed(tokio::runtime::RngSeed::from_bytes(&seed_bytes))
